@@ -1,6 +1,7 @@
 import BornoModel.Cli
 import BornoModel.Lemmas.ParseSoundStmt
 import BornoModel.Lemmas.ParseCompleteStmt
+import BornoModel.Lemmas.ParseWf
 import BornoModel.Props.C09
 /-! # C08 — the front end is total, accepts exactly the documented language, runs nothing else -/
 namespace Borno.Props.C08
@@ -126,6 +127,20 @@ theorem every_wellformed_program_is_accepted (p : List Stmt) (hw : wfSs p = true
     the same program (up to line fields) -/
 theorem program_tree_unique (p q : List Stmt) (hp : wfSs p = true) (hq : wfSs q = true) (h : rStmts p = rStmts q) :
     eraseSs p = eraseSs q := program_rendering_injective p q hp hq h
+
+/-- the remaining link: every program `Parse` accepts (no diagnostic) is well-formed — so the
+    accepted token lists are *exactly* the renderings of well-formed programs:
+    accepted ⇒ `accepted_is_rendering` + this; well-formed ⇒ `every_wellformed_program_is_accepted` -/
+theorem accepted_program_is_wellformed (f : Nat) (ts : List Token) (p : List Stmt) (r : List Token)
+    (hw : ∀ t ∈ ts, TokWf t) (h : program f ts = .ok p r []) : wfSs p = true :=
+  program_wf f ts p r hw h
+
+/-- hence the returned tree is *the* tree of the grammar for the accepted tokens: any well-formed
+    program with the same rendering is the returned one (up to line fields) -/
+theorem accepted_program_is_the_unique_tree (f : Nat) (ts : List Token) (p : List Stmt) (r : List Token)
+    (hw : ∀ t ∈ ts, TokWf t) (h : program f ts = .ok p r []) (q : List Stmt) (hq : wfSs q = true) (hr : rStmts q = rStmts p) :
+    eraseSs q = eraseSs p :=
+  program_rendering_injective q p hq (program_wf f ts p r hw h) hr
 
 /-- non-vacuity: a program with a function, a `ধরি` list, a `ফর` loop with all three clauses, an
     `if`/`else` chain, a block and a `return` is well-formed; the dangling-else tree that puts the
